@@ -415,7 +415,7 @@ def _temp_in_place_hits(fn):
             continue
         uses = uses or _local_uses(fn)
         dest = t["d"] if isinstance(t.get("d"), int) else None
-        if uses[tmp] == 1 and uses[r] == 1 and (dest is None or uses[dest] == 0):
+        if uses[tmp] == 1 and uses[r] == 1 and dest != 0 and (dest is None or uses[dest] == 0):
             hits.append((n, t.get("ln")))
     return hits
 
